@@ -180,8 +180,8 @@ def run(ctx: Ctx) -> None:
             star = [a.value for a in uc.args if isinstance(a, ast.Starred)]
             dstar = [k.value for k in uc.keywords if k.arg is None]
             desc = "the user function is called with the caller's args / kwargs unchanged"
-            ok = (len(uc.args) == 1 and len(star) == 1 and isinstance(star[0], ast.Name) and star[0].id in f.params and all(d.kind == "param" for d in fl.defs_of_use(star[0]))
-                  and len(uc.keywords) == 1 and isinstance(dstar[0], ast.Name) and dstar[0].id in f.params and all(d.kind == "param" for d in fl.defs_of_use(dstar[0])))
+            ok = (len(uc.args) == 1 and len(star) == 1 and isinstance(star[0], ast.Name) and star[0].id in f.params and all(d.kind == "param" for d in fl.root_defs(star[0]))
+                  and len(uc.keywords) == 1 and isinstance(dstar[0], ast.Name) and dstar[0].id in f.params and all(d.kind == "param" for d in fl.root_defs(dstar[0])))
             if ok:
                 rep.ok("C01.R5", f.qname, desc, f.loc(uc))
             else:
@@ -191,8 +191,8 @@ def run(ctx: Ctx) -> None:
             desc = "on a miss the value returned is the user call's result"
             if isinstance(st, ast.Assign) and isinstance(st.targets[0], ast.Name):
                 var = st.targets[0].id
-                rets = [r for r in f.own_nodes() if isinstance(r, ast.Return) and isinstance(r.value, ast.Name) and r.value.id == var]
-                good = [r for r in rets if any(d.stmt is st for d in fl.defs_of_use(r.value))]
+                rets = [r for r in f.own_nodes() if isinstance(r, ast.Return) and isinstance(r.value, ast.Name)]
+                good = [r for r in rets if any(d.stmt is st for d in fl.root_defs(r.value))]
                 if good:
                     rep.ok("C01.R5", f.qname, desc, f.loc(good[0]))
                 else:
@@ -205,7 +205,7 @@ def run(ctx: Ctx) -> None:
             ok = False
             for fb in fetch:
                 kb = fb.args[0] if fb.args else None
-                if isinstance(k, ast.Name) and isinstance(kb, ast.Name) and k.id == kb.id and set(fl.defs_of_use(k)) == set(fl.defs_of_use(kb)):
+                if isinstance(k, ast.Name) and isinstance(kb, ast.Name) and k.id == kb.id and set(fl.root_defs(k)) == set(fl.root_defs(kb)):
                     tb = [b for b in cfg.nodes if b.kind == "branch" and b.label == "T" and b.ast is not None and any(x is h for x in ast.walk(b.ast))]
                     if dominated(ctx, f, fb, tb) is None:
                         ok = True
@@ -217,7 +217,7 @@ def run(ctx: Ctx) -> None:
             n5 += 1
             v_ = sb.args[1] if len(sb.args) > 1 else None
             d_ = "the value stored is the user call's result"
-            okv = isinstance(v_, ast.Name) and bool(fl.defs_of_use(v_)) and all(d.kind == "assign" and d.value in ucs for d in fl.defs_of_use(v_))
+            okv = isinstance(v_, ast.Name) and bool(fl.root_defs(v_)) and all(d.kind == "assign" and d.value in ucs for d in fl.root_defs(v_))
             if okv:
                 rep.ok("C01.R5", f.qname, d_, f.loc(sb))
             else:
@@ -226,14 +226,14 @@ def run(ctx: Ctx) -> None:
             k = sb.args[0] if sb.args else None
             ok = False
             if isinstance(k, ast.Name):
-                kd = fl.defs_of_use(k)
+                kd = fl.root_defs(k)
                 for h in has:
                     hk = h.args[0] if h.args else None
                     if isinstance(hk, ast.Name):
-                        if hk.id == k.id and set(fl.defs_of_use(hk)) == set(kd):
+                        if hk.id == k.id and set(fl.root_defs(hk)) == set(kd):
                             ok = True
                         # same lookup expression of the evaluation's path map
-                        hv = [unparse(d.value, 200) for d in fl.defs_of_use(hk) if d.value is not None]
+                        hv = [unparse(d.value, 200) for d in fl.root_defs(hk) if d.value is not None]
                         kv = [unparse(d.value, 200) for d in kd if d.value is not None]
                         if hv and kv and ("requested_paths" in " ".join(kv)) and (hk.id == k.id or any("requested_paths" in x or "fun_return_sig" in x for x in hv)):
                             ok = True
